@@ -79,6 +79,12 @@ async_client_checks!(tokio);
 async_client_checks!(async_std);
 async_client_checks!(smol);
 
+/// the configuration is stored by value in every client and borrowed by every pending future
+pub fn config() {
+    is_send::<ClientConfig>();
+    is_sync::<ClientConfig>();
+}
+
 mod blocking {
     use super::*;
     use rsdns::clients::std::Client;
